@@ -433,3 +433,66 @@ Definition first_item {A} (l : list A) : result A := match l with x :: _ => Ok x
 Definition plate_size (v : bvec) : Z := Z.of_nat (vcount v).
 (* len(l) *)
 Definition zlen {A} (l : list A) : Z := Z.of_nat (length l).
+
+(* ---- vocabulary of the source translations of the shipped generators / smoothers (harness/src_functions.py, configurations
+   C13_SAMPLE_SEG ... C13_PLATE_PERMUTATION -> Generated/SrcRetroGen.v).  One definition per primitive: the meaning given to
+   one numpy / Generator / batchie.data call.  A `draw` answer is taken from the stream of recorded answers as it is: that it is a
+   permutation / a duplicate-free sub-list of the offered array (numpy's contract) is a hypothesis of the shape theorems
+   ([ss_contract], [size_contract]), not of the links. *)
+(* math.ceil(a / float(b)) on ints: ZeroDivisionError (tag 3) for b = 0, else the ceiling of the quotient (of either sign) *)
+Definition ceil_div_float (a b : Z) : result Z := if (b =? 0)%Z then Err 3%Z else Ok (- ((- a) / b))%Z.
+(* rng.permutation(a), a an array of row numbers: the recorded answer *)
+Definition permutation_ints (a : list nat) (ds : list draw) : result (list nat * list draw) := take_ints ds.
+(* np.array_split(a, n): ValueError (tag 3) unless n >= 1 *)
+Definition array_split_z {A} (a : list A) (n : Z) : result (list (list A)) :=
+  if (n <=? 0)%Z then Err 3%Z else Ok (array_split a (Z.to_nat n)).
+(* np.array([""] * n, dtype=object) *)
+Definition blank_names (n : nat) : list name := repeat [] n.
+(* a[idx] = v with idx an array of positions: IndexError (tag 92) if a position is outside the array *)
+Definition set_at (a : list name) (idx : list nat) (v : name) : result (list name) :=
+  if forallb (fun i => i <? length a) idx
+  then Ok (map (fun ix => if memb (fst ix) idx then v else snd ix) (enum_from 0 a))
+  else Err 92%Z.
+(* Screen(<every column of s>.copy(), plate_names = l.astype(str), observation_mask = s.observation_mask.copy()):
+   ValueError (tag 91) if l has not one entry per experiment *)
+Definition screen_labelled (s : screen_t) (l : list name) : result screen_t :=
+  if negb (length l =? length s) then Err 91%Z
+  else construct (map (fun lr => set_plate (fst lr) (snd lr)) (combine l s)).
+(* rng.choice(a, n, replace=False), a an array of row numbers: the recorded answer; ValueError (tag 3) for a negative n *)
+Definition choice_ints (a : list nat) (n : Z) (ds : list draw) : result (list nat * list draw) :=
+  if (n <? 0)%Z then Err 3%Z else take_ints ds.
+(* np.arange(s.size)[v], v a selection vector of s *)
+Definition vec_positions (v : bvec) : list nat := map fst (filter snd (enum_from 0 v)).
+(* Screen.subset(v): the selected experiments, in row order *)
+Definition subset_of (s : screen_t) (v : bvec) : subset_t := vselect v s.
+(* np.sort(np.array(l)), l a list of ints *)
+Fixpoint insert_z (x : Z) (l : list Z) : list Z :=
+  match l with [] => [x] | y :: r => if (x <=? y)%Z then x :: l else y :: insert_z x r end.
+Definition sort_z (l : list Z) : list Z := fold_right insert_z [] l.
+(* a * b on int arrays of equal length *)
+Definition vmul_z (a b : list Z) : list Z := map (fun p => (fst p * snd p)%Z) (combine a b).
+(* n - v, n an int, v an int array *)
+Definition rsub_z (n : Z) (v : list Z) : list Z := map (fun x => (n - x)%Z) v.
+(* np.argmax(a): the first index of the maximum; ValueError (tag 3) on an empty array *)
+Fixpoint argmax_z_go (l : list Z) (i best bi : Z) : Z :=
+  match l with
+  | [] => bi
+  | y :: r => if (best <? y)%Z then argmax_z_go r (i + 1)%Z y i else argmax_z_go r (i + 1)%Z best bi
+  end.
+Definition argmax_z (l : list Z) : result Z :=
+  match l with [] => Err 3%Z | x :: r => Ok (argmax_z_go r 1%Z x 0%Z) end.
+(* the id of the sample named nm in the screen s: its rank among the sorted unique sample names *)
+Definition sample_id_z (s : screen_t) (nm : name) : Z := Z.of_nat (sample_id s nm).
+(* plate.unique_sample_ids of a plate [v] of the screen [s], as ids: np.unique(s.sample_ids[v]) (ranks are monotone in the names) *)
+Definition plate_unique_sample_ids (v : bvec) (s : screen_t) : list Z := map (sample_id_z s) (plate_unique_samples v s).
+(* s.sample_names != nm *)
+Definition sample_name_ne (s : screen_t) (nm : name) : bvec := map (fun r => negb (name_eqb (r_sample r) nm)) s.
+(* ~np.isin(s.plate_names, f) *)
+Definition plate_not_in (s : screen_t) (f : list name) : bvec := map (fun r => negb (name_mem (r_plate r) f)) s.
+(* rng.permutation(names), names an array of plate names: the recorded answer *)
+Definition permutation_names (a : list name) (ds : list draw) : result (list name * list draw) := take_names ds.
+(* Screen(<every column of s>, plate_names = l, observation_mask = np.zeros(s.size)): ValueError (tag 91) if l has not one entry
+   per experiment *)
+Definition screen_renamed (s : screen_t) (l : list name) : result screen_t :=
+  if negb (length l =? length s) then Err 91%Z
+  else construct (map (fun x => set_mask false (set_plate (fst x) (snd x))) (combine l s)).
